@@ -83,6 +83,28 @@ CHECKS = {
               "pre-grown with make_accessible(lo-len, hi+len+1); the guard allocator makes the tape exactly that region so the first byte outside faults; the log must equal the canonical one."),
         note=TB,
         design="5 C10"),
+    "C11": dict(
+        technique="runtime monitoring: invariant at a hook (static validator over every bytecode program produced / held by executors) + adversarial-contract shadow interpreter compared with the canonical event log",
+        text=("Exploration. For every generated source program, width, level 0..3 and both generator settings the finished bytecode is validated over all paths (CFG, must-defined temporaries, liveness vs the live bitmap, "
+              "operand window, temp count, branch targets) and executed by an independent interpreter that destroys every register temporary not declared live and traps on poison; the validator also runs on the bytecode "
+              "held by BcInterpreter and BaseJitCompiler (hook H2) in every differential check."),
+        note="Trusted base: the validator's reading of the contract (calibrated: silent on the unchanged tree over > 10^6 bytecodes) and the canonical interpreter. Over programs it is sampling; per program the static part is exhaustive over paths.",
+        design="5 C11"),
+    "C12": dict(
+        technique="runtime monitoring: reference bracket matcher + metamorphic comment-insertion pairs over generated and exhaustively enumerated source strings, in forked children on the main-thread stack, release and debug profiles",
+        text="Exploration with an exhaustive small-scope part (all 3280 strings over {[,],+} up to length 7). Acceptance, error kind and character position of every parsing executor are compared with a reference matcher; comment insertion (incl. multi-byte UTF-8) must not change acceptance, error kind, command-relative position or the event log of any back end; nesting depth up to 300 must not crash.",
+        note=TB + "Depth is bounded at 300 as the property says 'moderate'.",
+        design="5 C12"),
+    "C13": dict(
+        technique="runtime monitoring: artefact-hash comparison within and across ASLR-free worker processes, panic capture at the API boundary in release and overflow-check builds, allocator-call growth ratios, repeated-execution log comparison",
+        text="Exploration. Totality (no panic/abort/overflow in create/translate/print_mc for nesting depth <= 300, both profiles), determinism (IR / bytecode / machine code equal between compilations in one process with other compilations in between and across 16 processes), reusability (six executions of one executor on fresh contexts in mixed modes) and a growth-ratio bound on allocator calls along seven parameterised families.",
+        note="'Super-polynomial blow-up' is restated as: allocator calls at most 32x + 20000 per doubling of the family parameter (n = 4..64). Machine code is compared without ASLR.",
+        design="5 C13"),
+    "C16": dict(
+        technique="runtime monitoring at the process boundary: random argv against a model configuration, stdout/exit status oracle (canonical interpreter), strace observation of PROT_EXEC / 512 MiB mappings, stdin file offset",
+        text="Exploration. The real binary, rebuilt from /repo, is invoked with random flag subsets and orders and code split between -f files and bare arguments; output, exit status, diagnostics, the back end and mode actually used (via strace) and non-consumption of stdin by print options are checked.",
+        note="Trusted base: check.py's Python canonical interpreter; 'last flag wins' for repeated flags; strace. 32 vs 64 bit cells are distinguished through --print-ir witnesses only (a run-time distinction would need 2^32 steps).",
+        design="5 C16"),
     "C14": dict(
         technique="runtime monitoring: postcondition assertions from the definitions over exhaustive (8 bit; 16 bit in thorough) and structured/random operand sets, plus Miri",
         text="Exploration, exhaustive at 8 bits (all (n,d) and (base,exp) pairs) and at 16 bits in the thorough tier (all 2^32 (n,d) pairs); every (tz(n),tz(d)) combination plus boundary and random operands at 32/64 bits.",
